@@ -15,6 +15,9 @@ use crate::world::World;
 
 pub struct C17;
 
+pub const ENUM_P: u64 = 3200;
+pub const ENUM_E: u64 = 96;
+
 const WORLD_DIMS: &[&str] = &["rand", "stdout", "stderr", "merged", "spelling", "cwd_name", "file_name", "rel"];
 
 pub struct SinkFault {
@@ -151,7 +154,7 @@ impl Property for C17 {
         if tier == "thorough" { 1_500_000 } else { 40_000 }
     }
     fn rule(&self) -> String {
-        "case = (W2 call-tree program, 70%) x (write error / torn write on fd 1 at a write-call index of the run, 6 errnos, one-shot or persistent, optionally under write chunking and EINTR) | (W1 corpus program, 30%) x (sink kinds, 2>&1, path spelling, hash keys, invisible events); oracle for a fired sink fault with print j in flight (identified from acknowledged bytes): exit 103; stdout is a prefix of the model output covering prints < j; stderr line 1 = '<argv1>:<L>:<C>:[ in '<f>':] <text>' with f the model's innermost function and (L,C) the print call; Stacktrace has exactly one line per active call with the model's caller names and call positions, ending at <root>; no internal identifier in the text; fault-free W2 run = model stdout, empty stderr, exit 0; W1: transcript equals reference, exit 0 <=> stderr empty, merged stream = stdout ++ stderr; non-trivial = a fault fired or world differs; distinct = distinct (program, world, plan)".to_string()
+        "thorough tier additionally enumerates, for 3200 W2 programs, every single fault (write-call index of the fault-free run x {one-shot ENOSPC, persistent EIO}) up to 48 write calls; sampled cases: case = (W2 call-tree program, 70%) x (write error / torn write on fd 1 at a write-call index of the run, 6 errnos, one-shot or persistent, optionally under write chunking and EINTR) | (W1 corpus program, 30%) x (sink kinds, 2>&1, path spelling, hash keys, invisible events); oracle for a fired sink fault with print j in flight (identified from acknowledged bytes): exit 103; stdout is a prefix of the model output covering prints < j; stderr line 1 = '<argv1>:<L>:<C>:[ in '<f>':] <text>' with f the model's innermost function and (L,C) the print call; Stacktrace has exactly one line per active call with the model's caller names and call positions, ending at <root>; no internal identifier in the text; fault-free W2 run = model stdout, empty stderr, exit 0; W1: transcript equals reference, exit 0 <=> stderr empty, merged stream = stdout ++ stderr; non-trivial = a fault fired or world differs; distinct = distinct (program, world, plan)".to_string()
     }
     fn assumptions(&self) -> Vec<String> {
         vec![
@@ -168,7 +171,22 @@ impl Property for C17 {
         v
     }
 
-    fn gen_case(&self, ctx: &Ctx, worker: usize, rng: &mut Rng, _index: u64) -> Case {
+    fn gen_case(&self, ctx: &Ctx, worker: usize, rng: &mut Rng, index: u64) -> Case {
+        // thorough tier: the first ENUM_P * ENUM_E indices enumerate every single
+        // sink fault (write index x {one-shot, persistent}) of ENUM_P programs
+        if ctx.tier == "thorough" && index < ENUM_P * ENUM_E {
+            let prog_i = index % ENUM_P;
+            let slot = index / ENUM_P;
+            let mut prng = Rng::for_run(ctx.seed, "C17-enum-program", prog_i);
+            let p = crate::w2::pick(&mut prng, &crate::w2::GenOpts::default());
+            let n = slot / 2;
+            let act = if slot % 2 == 0 { crate::plan::Act::Err(crate::plan::ENOSPC) } else { crate::plan::Act::PErr(crate::plan::EIO) };
+            let mut plan = Plan::new();
+            plan.items.push(Item::Write { fd: 1, n, act });
+            let mut aux = p.aux.clone();
+            aux["enum"] = serde_json::json!({"program": prog_i, "slot": slot});
+            return Case { label: p.label, program: p.program, aux, world: World::reference(), plan };
+        }
         if rng.chance(7, 10) {
             let p = crate::w2::pick(rng, &crate::w2::GenOpts::default());
             let reference = ctx.reference(worker, &p.program);
@@ -382,6 +400,18 @@ fn check_w2(ctx: &Ctx, worker: usize, case: &Case) -> Outcome {
     if reference.stdout != w2.stdout || reference.status != Status::Exit(0) || !reference.stderr.is_empty() {
         out.skipped = Some("baseline_mismatch".into());
         return out;
+    }
+    if let Some(e) = case.aux.get("enum") {
+        let w1 = faults::count_writes(&reference, 1);
+        let slot = e.get("slot").and_then(|v| v.as_u64()).unwrap_or(0);
+        if slot == 0 {
+            out.probes.push(if w1 * 2 <= ENUM_E { "enum:program-fully-enumerated".into() } else { "enum:program-partly-enumerated".into() });
+        }
+        if slot / 2 >= w1 {
+            out.skipped = Some("enum-slot-beyond-run".into());
+            return out;
+        }
+        out.probes.push("enum:case".into());
     }
     let r = ctx.run(worker, &case.program, &case.world, &case.plan);
     out.io_events = r.events.len() as u64;
